@@ -36,6 +36,10 @@ enum KeyChoice {
     SameKindOther,
     OtherKind,
     Random,
+    /// the derived key without its last byte / with one byte appended / the empty key
+    Prefix31,
+    Extended33,
+    Empty,
 }
 
 /// The key the content of a stored record determines, recomputed independently of the node.
@@ -166,6 +170,9 @@ fn run_case(run: &Run, stub: &Arc<EvmStub>, kind: Kind, path: Path, choice: KeyC
         KeyChoice::SameKindOther => other_same_kind_key(kind),
         KeyChoice::OtherKind => other_kind_key(kind),
         KeyChoice::Random => RecordKey::new(&[0xabu8; 32]),
+        KeyChoice::Prefix31 => RecordKey::new(&up.key.as_ref()[..31].to_vec()),
+        KeyChoice::Extended33 => RecordKey::new(&[up.key.as_ref(), &[0u8][..]].concat()),
+        KeyChoice::Empty => RecordKey::new(&Vec::<u8>::new()),
     };
     let watch = vec![up.key.clone(), key.clone(), other_same_kind_key(kind), other_kind_key(kind)];
     let before = snapshot(&mut rig, &watch);
@@ -173,7 +180,8 @@ fn run_case(run: &Run, stub: &Arc<EvmStub>, kind: Kind, path: Path, choice: KeyC
     run.case(desc.to_string().as_bytes(), choice != KeyChoice::Derived);
     // the attacker pays for the key it presents
     let now = SystemTime::now() - Duration::from_secs(30);
-    let addr = rec::xorname_of_key(&key);
+    // (a key that is not 32 bytes long has no address of its own: pay for the derived one)
+    let addr = if key.as_ref().len() >= 32 { rec::xorname_of_key(&key) } else { rec::xorname_of_key(&up.key) };
     let proof = rec::proof(vec![(1, rec::quote(1, addr, now)), (2, rec::quote(2, addr, now)), (3, rec::quote(3, addr, now))]);
     let mut record = match path {
         Path::PaidPut => (up.with_payment)(&proof),
@@ -336,7 +344,7 @@ pub fn main(tier: Option<&str>) {
     let run = Run::new("C04", "model_checking", tier);
     run.rule(
         "kind 4 x path {paid put, unpaid update, replication, kad inbound} x key {derived, another object of the same kind, an object of \
-         another kind, random} x {empty store, derived key already held, the presented foreign key already held by its legitimate record}: each on a fresh real Node + SwarmDriver under the FIFO \
+         another kind, random, the derived key minus its last byte / plus one byte, the empty key} x {empty store, derived key already held, the presented foreign key already held by its legitimate record}: each on a fresh real Node + SwarmDriver under the FIFO \
          schedule, the presented key paid for by an otherwise valid proof; after each case every record the store lists is re-derived \
          from its bytes. Plus 8 malformed / oversized inbound records. Non-trivial = the key is not the derived one.",
     );
@@ -344,7 +352,7 @@ pub fn main(tier: Option<&str>) {
     let mut cases = vec![];
     for kind in KINDS {
         for path in [Path::PaidPut, Path::UnpaidUpdate, Path::Replication, Path::KadInbound] {
-            for choice in [KeyChoice::Derived, KeyChoice::SameKindOther, KeyChoice::OtherKind, KeyChoice::Random] {
+            for choice in [KeyChoice::Derived, KeyChoice::SameKindOther, KeyChoice::OtherKind, KeyChoice::Random, KeyChoice::Prefix31, KeyChoice::Extended33, KeyChoice::Empty] {
                 for held in [Held::Nothing, Held::DerivedKey, Held::PresentedKey] {
                     if held == Held::PresentedKey && legit_record_under(kind, choice).is_none() {
                         continue;
